@@ -1701,3 +1701,166 @@ func c18BoundedRecursion(c *Ctx, r *Report) {
 	}
 	r.Floor("R18.18", "self-recursive JSON token readers", n, 1)
 }
+
+// R18.19: a clamp for an index stops below the length. min(i, len(t)) can be
+// len(t); t[min(i, len(t))] is then out of range by one.
+func c18ClampBelowLength(c *Ctx, r *Report) {
+	r.Rule("R18.19", "a clamp for an index stops below the length: where an index into a slice, array or string is the result of the min builtin, no argument of that min is len() of the indexed value itself (or a constant not below the length of an indexed array) — t[min(i, len(t))] is out of range when the clamp bites; len(t)-1 is the clamp for an index")
+	n, examined := 0, 0
+	for _, fn := range c.ModuleFunctions() {
+		if fn.Pkg == nil || fn.Blocks == nil || !scopeForCrashRules(fn) {
+			continue
+		}
+		k := 0
+		for _, b := range fn.Blocks {
+			for _, in := range b.Instrs {
+				var x, idx ssa.Value
+				switch y := in.(type) {
+				case *ssa.IndexAddr:
+					x, idx = y.X, y.Index
+				case *ssa.Index:
+					x, idx = y.X, y.Index
+				default:
+					continue
+				}
+				examined++
+				for {
+					if cv, ok := idx.(*ssa.Convert); ok {
+						idx = cv.X
+						continue
+					}
+					break
+				}
+				call, ok := idx.(*ssa.Call)
+				if !ok {
+					continue
+				}
+				bi, ok := call.Call.Value.(*ssa.Builtin)
+				if !ok || bi.Name() != "min" {
+					continue
+				}
+				n++
+				k++
+				key := fmt.Sprintf("%s: index clamped by min #%d", SSAName(fn), k)
+				bad := ""
+				alen := int64(-1)
+				t := x.Type().Underlying()
+				if p, ok := t.(*types.Pointer); ok {
+					t = p.Elem().Underlying()
+				}
+				if at, ok := t.(*types.Array); ok {
+					alen = at.Len()
+				}
+				for _, a := range call.Call.Args {
+					if lc, ok := a.(*ssa.Call); ok {
+						if lb, ok := lc.Call.Value.(*ssa.Builtin); ok && lb.Name() == "len" && (lc.Call.Args[0] == x || sameValue(lc.Call.Args[0], x)) {
+							bad = "len of the indexed value"
+						}
+					}
+					if kc, ok := a.(*ssa.Const); ok && alen >= 0 && kc.Value != nil && kc.Value.Kind() == constant.Int {
+						if v, exact := constant.Int64Val(kc.Value); exact && v >= alen {
+							bad = fmt.Sprintf("the constant %d, not below the array length %d", v, alen)
+						}
+					}
+				}
+				r.Check(bad == "", "R18.19", key, c.Rel(in.Pos()), "the clamp is below the length",
+					fmt.Sprintf("%s indexes with min(…) one of whose arguments is %s: when the clamp bites the index equals the length and the process panics with 'index out of range'", SSAName(fn), bad))
+			}
+		}
+	}
+	if n == 0 {
+		r.OK("R18.19", "no index clamped by min", "", fmt.Sprintf("%d index expressions examined, none takes its index from the min builtin", examined))
+	}
+	r.Floor("R18.19", "index expressions examined", examined, 500)
+}
+
+// R18.20: what a map look-up returns may be nil. (*Mlrmap).Get returns nil
+// for a key that is not there. In the interpreter, where the keys come from
+// the program and the data, a method call on the result (which dereferences
+// it) is reached only past a nil test of that result.
+func c18MapGetNil(c *Ctx, r *Report) {
+	r.Rule("R18.20", "what a map look-up returns may be nil: in package cst, a value returned by (*Mlrmap).Get that is used as the receiver of a method (or has a field read) is tested against nil on the way — lashed emits over maps with different key sets, and every other look-up by a key that comes from data, meet missing keys")
+	n := 0
+	for _, fn := range c.ModuleFunctions() {
+		if fn.Pkg == nil || fn.Blocks == nil || !strings.HasSuffix(fn.Pkg.Pkg.Path(), "/pkg/dsl/cst") {
+			continue
+		}
+		k := 0
+		for _, b := range fn.Blocks {
+			for _, in := range b.Instrs {
+				get, ok := in.(*ssa.Call)
+				if !ok || !strings.HasSuffix(CalleeName(&get.Call), "pkg/mlrval.Mlrmap.Get") || get.Referrers() == nil {
+					continue
+				}
+				// uses as a receiver, directly or through a cell of a local slice the value was stored in
+				type use struct {
+					at  ssa.Instruction
+					val ssa.Value
+				}
+				var uses []use
+				for _, ref := range *get.Referrers() {
+					switch x := ref.(type) {
+					case *ssa.Call:
+						if !x.Call.IsInvoke() && len(x.Call.Args) > 0 && x.Call.Args[0] == ssa.Value(get) && x.Call.StaticCallee() != nil && x.Call.StaticCallee().Signature.Recv() != nil {
+							uses = append(uses, use{x, get})
+						}
+					case *ssa.FieldAddr:
+						uses = append(uses, use{x, get})
+					case *ssa.Store:
+						// stored into a slice cell and read back in the same block as a receiver
+						if ia, ok := x.Addr.(*ssa.IndexAddr); ok && x.Val == ssa.Value(get) {
+							for _, in2 := range x.Block().Instrs {
+								if ld, ok := in2.(*ssa.UnOp); ok && ld.Op == token.MUL {
+									if ia2, ok := ld.X.(*ssa.IndexAddr); ok && ia2.X == ia.X && ia2.Index == ia.Index && ld.Referrers() != nil {
+										for _, r2 := range *ld.Referrers() {
+											if c2, ok := r2.(*ssa.Call); ok && !c2.Call.IsInvoke() && len(c2.Call.Args) > 0 && c2.Call.Args[0] == ssa.Value(ld) && c2.Call.StaticCallee() != nil && c2.Call.StaticCallee().Signature.Recv() != nil {
+												uses = append(uses, use{c2, ld})
+											}
+										}
+									}
+								}
+							}
+						}
+					}
+				}
+				for _, u := range uses {
+					n++
+					k++
+					key := fmt.Sprintf("%s: use of a Get result #%d", SSAName(fn), k)
+					tested := false
+					for _, g := range GuardsAt(u.at.Block()) {
+						cond, pol := stripNot(g.Cond, g.Polarity)
+						cmp, ok := cond.(*ssa.BinOp)
+						if !ok || !isNilConst(cmp.X, cmp.Y) || !(cmp.X == ssa.Value(get) || cmp.Y == ssa.Value(get) || cmp.X == u.val || cmp.Y == u.val) {
+							continue
+						}
+						if (cmp.Op == token.NEQ && pol) || (cmp.Op == token.EQL && !pol) {
+							tested = true
+						}
+					}
+					// methods that accept a nil receiver by testing it themselves
+					if call, ok := u.at.(*ssa.Call); ok && nilSafeReceiver(call.Call.StaticCallee()) {
+						tested = true
+					}
+					r.Check(tested, "R18.20", key, c.Rel(u.at.Pos()), "past a nil test",
+						fmt.Sprintf("%s calls a method on (or reads a field of) the result of Mlrmap.Get with no nil test on the way: for a key that is not in the map the result is nil and the process dies with a nil pointer dereference", SSAName(fn)))
+				}
+			}
+		}
+	}
+	r.Floor("R18.20", "receiver uses of Mlrmap.Get results in package cst", n, 1)
+}
+
+// nilSafeReceiver: the method's first act is to compare its receiver with nil.
+func nilSafeReceiver(f *ssa.Function) bool {
+	if f == nil || f.Blocks == nil || len(f.Params) == 0 {
+		return false
+	}
+	b := f.Blocks[0]
+	iff, ok := b.Instrs[len(b.Instrs)-1].(*ssa.If)
+	if !ok {
+		return false
+	}
+	cmp, ok := iff.Cond.(*ssa.BinOp)
+	return ok && (cmp.X == ssa.Value(f.Params[0]) || cmp.Y == ssa.Value(f.Params[0])) && isNilConst(cmp.X, cmp.Y)
+}
